@@ -234,6 +234,7 @@ theorem rs_pawn_moves_eq (b : Board) (acc : List Board.Move) (nq : Bool) (pawnOc
     fuel pawnOcc acc hpawn (fuel_ok _ _ _ (by omega) hf)
   simp only [key, Option.bind_eq_bind, Option.bind_some, Option.pure_def]
 
+#print axioms rs_generate_pawn_promotions_eq
 #print axioms rs_generate_pawn_attacks_eq
 #print axioms rs_pawn_attacks_eq
 #print axioms rs_pawn_moves_eq
